@@ -1,4 +1,5 @@
 """C17 - XML reports are well-formed and agree with the run."""
+import json
 import os
 import random
 
@@ -210,9 +211,29 @@ def run_case(case):
         if len(viol) < 8:
             viol.append({'rule': rule, 'mech': mech, 'detail': d})
 
+    # the report directory as the user typed it: a quarter of the runs give
+    # it relative to the directory the runner is started in - and in half of
+    # those a test changes the working directory and does not go back
+    xml_arg = xmldir
+    rel = rng.random() < 0.25
+    if rel:
+        xml_arg = rng.choice(['xmlout', './xmlout', 'sub/../xmlout'])
+        if xml_arg.startswith('sub'):
+            os.makedirs(os.path.join(root, 'sub'), exist_ok=True)
+        C('relative_report_dir')
+        if rng.random() < 0.5:
+            victims = [t for n in nodes if n['t'] == 'class'
+                       for t in n['tests'] if t['kind'] != 'skip_deco']
+            if victims:
+                t = rng.choice(victims)
+                t.setdefault('actions', []).append(
+                    {'ph': 'setUp', 'do': 'chdir', 'path': 'work'})
+                with open(os.path.join(root, 'world.json'), 'w') as f:
+                    json.dump(spec, f)
+                C('tests_changing_cwd')
     try:
-        w = common.run_world(spec, None, opts, extra_argv=['--xml', xmldir],
-                             root=root)
+        w = common.run_world(spec, None, opts, extra_argv=['--xml', xml_arg],
+                             root=root, cwd=root if rel else None)
         if w.raised is not None:
             tb = w.raised_tb or ''
             mech = 'run-raised'
